@@ -7,6 +7,12 @@ so that equivalent spellings of the same operation are one form before any rule 
   dict(k=v, ...)                           ->  {"k": v, ...}
   not (a is b), not (a in b), not a == b   ->  a is not b, a not in b, a != b
   'v{0}'.format(i), 'v{}'.format(i)         ->  f'v{i}'
+  list(X.keys()), len(X.keys()) ...         ->  list(X), len(X)
+  f(a, **{"k": v})                          ->  f(a, k=v)
+  X.update({k: E for k in L})               ->  for k in L: X[k] = E
+  [f(x) for x in A + B] / in [a, b] / in list(Y)  ->  [f(x) for x in A] + [f(x) for x in B] / [f(a), f(b)] / in Y
+  [a, *x, b, *y]                            ->  [a] + list(x) + [b] + list(y)
+  not f(x).all()                            ->  (~f(x)).any()
   x if not c else y                        ->  y if c else x   (also for `is not None`, `!=`, `not in` tests)
 """
 import ast
@@ -55,6 +61,20 @@ class _N(ast.NodeTransformer):
     def visit_Call(self, n):
         self.generic_visit(n)
         f = n.func
+        # list(X.keys()) -> list(X)   (iterating a mapping iterates its keys; also tuple / sorted / set / len)
+        if isinstance(f, ast.Name) and f.id in ("list", "tuple", "sorted", "set", "len") and len(n.args) == 1 and not n.keywords:
+            a0 = n.args[0]
+            if isinstance(a0, ast.Call) and isinstance(a0.func, ast.Attribute) and a0.func.attr == "keys" and not a0.args and not a0.keywords:
+                n.args = [a0.func.value]
+        # f(a, **{"k": v})  ->  f(a, k=v)
+        if any(k.arg is None and isinstance(k.value, ast.Dict) for k in n.keywords):
+            kws = []
+            for k in n.keywords:
+                if k.arg is None and isinstance(k.value, ast.Dict) and all(isinstance(x, ast.Constant) and isinstance(x.value, str) and x.value.isidentifier() for x in k.value.keys):
+                    kws.extend(ast.keyword(arg=x.value, value=v) for x, v in zip(k.value.keys, k.value.values))
+                else:
+                    kws.append(k)
+            n.keywords = kws
         if isinstance(f, ast.Attribute) and _is_np(f.value):
             if f.attr == "flatnonzero" and len(n.args) == 1 and not n.keywords:
                 w = ast.Call(func=ast.Attribute(value=f.value, attr="where", ctx=ast.Load()), args=n.args, keywords=[])
@@ -94,6 +114,24 @@ class _N(ast.NodeTransformer):
     def _star(self, n, mk):
         elts = n.elts
         stars = [i for i, e in enumerate(elts) if isinstance(e, ast.Starred)]
+        if len(stars) > 1 and isinstance(n.ctx, ast.Load):
+            # [a, *x, b, *y] -> [a] + list(x) + [b] + list(y)
+            conv = "list" if isinstance(n, ast.List) else "tuple"
+            parts, run = [], []
+            for e in elts:
+                if isinstance(e, ast.Starred):
+                    if run:
+                        parts.append(mk(run))
+                        run = []
+                    parts.append(ast.Call(func=ast.Name(id=conv, ctx=ast.Load()), args=[e.value], keywords=[]))
+                else:
+                    run.append(e)
+            if run:
+                parts.append(mk(run))
+            out = parts[0]
+            for q in parts[1:]:
+                out = ast.BinOp(left=out, op=ast.Add(), right=q)
+            return ast.copy_location(out, n)
         if len(stars) != 1 or not isinstance(n.ctx, ast.Load):
             return n
         i = stars[0]
@@ -115,8 +153,34 @@ class _N(ast.NodeTransformer):
         self.generic_visit(n)
         return self._star(n, lambda e: ast.Tuple(elts=e, ctx=ast.Load()))
 
+    def visit_ListComp(self, n):
+        self.generic_visit(n)
+        return _distribute(n)
+
+    def visit_Expr(self, n):
+        self.generic_visit(n)
+        # X.update({k: E for k in L})  ->  for k in L: X[k] = E
+        c = n.value
+        if isinstance(c, ast.Call) and isinstance(c.func, ast.Attribute) and c.func.attr == "update" and len(c.args) == 1 and not c.keywords \
+                and isinstance(c.args[0], ast.DictComp) and len(c.args[0].generators) == 1 and not c.args[0].generators[0].ifs and not c.args[0].generators[0].is_async:
+            dc = c.args[0]
+            g = dc.generators[0]
+            bound = {x.id for x in ast.walk(g.target) if isinstance(x, ast.Name)}
+            recv_names = {x.id for x in ast.walk(c.func.value) if isinstance(x, ast.Name)}
+            if not (bound & recv_names):
+                tgt = ast.Subscript(value=c.func.value, slice=dc.key, ctx=ast.Store())
+                body = ast.Assign(targets=[tgt], value=dc.value, lineno=n.lineno, col_offset=n.col_offset)
+                loop = ast.For(target=_store(g.target), iter=g.iter, body=[body], orelse=[], lineno=n.lineno, col_offset=n.col_offset)
+                return ast.copy_location(loop, n)
+        return n
+
     def visit_UnaryOp(self, n):
         self.generic_visit(n)
+        # not X.all()  ->  (~X).any()     (element-wise arrays: "not all finite" == "any not finite")
+        if isinstance(n.op, ast.Not) and isinstance(n.operand, ast.Call) and isinstance(n.operand.func, ast.Attribute) and n.operand.func.attr == "all" \
+                and not n.operand.args and not n.operand.keywords and isinstance(n.operand.func.value, ast.Call):
+            inv = ast.UnaryOp(op=ast.Invert(), operand=n.operand.func.value)
+            return ast.copy_location(ast.Call(func=ast.Attribute(value=inv, attr="any", ctx=ast.Load()), args=[], keywords=[]), n)
         if isinstance(n.op, ast.Not) and isinstance(n.operand, ast.Compare) and len(n.operand.ops) == 1 and type(n.operand.ops[0]) in _NEG:
             c = n.operand
             return ast.copy_location(ast.Compare(left=c.left, ops=[_NEG[type(c.ops[0])]()], comparators=c.comparators), n)
@@ -134,6 +198,63 @@ class _N(ast.NodeTransformer):
         if flip:
             return ast.copy_location(ast.IfExp(test=t, body=n.orelse, orelse=n.body), n)
         return n
+
+
+def _store(t):
+    import copy
+    t = copy.copy(t)
+    if isinstance(t, (ast.Tuple, ast.List)):
+        t.elts = [_store(e) for e in t.elts]
+    if hasattr(t, "ctx"):
+        t.ctx = ast.Store()
+    return t
+
+
+def _subst_name(e, name, val):
+    class T(ast.NodeTransformer):
+        def visit_Name(self, n):
+            if n.id == name and isinstance(n.ctx, ast.Load):
+                import copy
+                return copy.deepcopy(val)
+            return n
+    import copy
+    return T().visit(copy.deepcopy(e))
+
+
+def _distribute(n):
+    """[f(x) for x in A + B] -> [f(x) for x in A] + [f(x) for x in B];  [f(x) for x in [a, b]] -> [f(a), f(b)];  for x in list(Y) -> for x in Y"""
+    if len(n.generators) != 1 or n.generators[0].is_async:
+        return n
+    g = n.generators[0]
+    it = g.iter
+    if isinstance(it, ast.Call) and isinstance(it.func, ast.Name) and it.func.id in ("list", "tuple") and len(it.args) == 1 and not it.keywords \
+            and not (isinstance(it.args[0], ast.Call) and isinstance(it.args[0].func, ast.Attribute) and it.args[0].func.attr in ("keys", "values", "items")) \
+            and isinstance(it.args[0], (ast.Name, ast.Subscript, ast.Attribute)):
+        g.iter = it = it.args[0]
+    if isinstance(it, ast.BinOp) and isinstance(it.op, ast.Add):
+        import copy
+        parts = []
+
+        def flat(e):
+            if isinstance(e, ast.BinOp) and isinstance(e.op, ast.Add):
+                flat(e.left)
+                flat(e.right)
+            else:
+                parts.append(e)
+        flat(it)
+        outs = []
+        for q in parts:
+            c = copy.deepcopy(n)
+            c.generators[0].iter = q
+            outs.append(_distribute(c))
+        out = outs[0]
+        for q in outs[1:]:
+            out = ast.BinOp(left=out, op=ast.Add(), right=q)
+        return ast.copy_location(out, n)
+    if isinstance(it, (ast.List, ast.Tuple)) and isinstance(g.target, ast.Name) and not g.ifs and it.elts and not any(isinstance(e, ast.Starred) for e in it.elts) \
+            and all(isinstance(e, (ast.Constant, ast.Name)) for e in it.elts):
+        return ast.copy_location(ast.List(elts=[_subst_name(n.elt, g.target.id, e) for e in it.elts], ctx=ast.Load()), n)
+    return n
 
 
 def normalize(tree):
